@@ -21,6 +21,7 @@ RULE = ("stream 'isspace': every code point < 0x3100 (+ samples above): Python's
         "killed before every traced file operation (also with a torn write); the parent must load the previous or the new configuration; the "
         "file's state is compared with the model run over the regenerated trace. distinct = distinct case.")
 RULE += (" Route 'profile-inplace': the configuration object obtained from the profile is changed in place and handed back to write_config (as the noise layer does).")
+RULE += (" Route 'reload-after-resave': load, save a same-length configuration at once, load again.")
 ASSUMPTIONS = ["json.loads(json.dumps(d)) == d and base64 decode∘encode = id (stdlib)", "open(..,'w') truncates at open; os.replace is atomic; a killed process "
                "loses nothing that was written (no power loss)", "key=value format: values without '#', ';', line breaks or surrounding blanks (the property's restriction)"]
 
